@@ -574,7 +574,63 @@ func (e *env) doRaw(parts []string) string {
 		return "DROP"
 	}
 	defer resp.Body.Close()
-	return e.respTok(resp, num)
+	tok := e.respTok(resp, num)
+	if resp.StatusCode == 301 {
+		// the id segment of the redirect target is the store's real id: back to the handle token, like every other id
+		if rid := e.realID(mb, ok, id); rid != id {
+			if loc, err := url.PathUnescape(resp.Header.Get("Location")); err == nil {
+				tok = "301/" + vh.HS(canonLoc(loc, pathOf(e.baseSeg, tmpl, wname, rid, num, file), pathOf(e.baseSeg, tmpl, wname, id, num, file)))
+			}
+		}
+	}
+	return tok
+}
+
+// canonLoc: loc is the cleaned form of the (unescaped) request path pReal; pTok is the same path with the handle
+// token where pReal has the store's id. The segment of loc that stems from that id segment — followed through the
+// cleaning: empty and "." segments vanish, ".." pops — is replaced by the token.
+func canonLoc(loc, pReal, pTok string) string {
+	ur, err1 := url.PathUnescape(pReal)
+	ut, err2 := url.PathUnescape(pTok)
+	if err1 != nil || err2 != nil {
+		return loc
+	}
+	sr, stk := strings.Split(ur, "/"), strings.Split(ut, "/")
+	if len(sr) != len(stk) {
+		return loc
+	}
+	at := -1
+	for i := range sr {
+		if sr[i] != stk[i] {
+			if at >= 0 {
+				return loc
+			}
+			at = i
+		}
+	}
+	if at < 0 {
+		return loc
+	}
+	var stack []int // source index of every surviving segment
+	for i, seg := range sr {
+		switch seg {
+		case "", ".":
+		case "..":
+			if len(stack) > 0 {
+				stack = stack[:len(stack)-1]
+			}
+		default:
+			stack = append(stack, i)
+		}
+	}
+	ls := strings.Split(loc, "/")
+	for j, src := range stack {
+		if src == at && j+1 < len(ls) && ls[j+1] == sr[at] {
+			ls[j+1] = stk[at]
+			return strings.Join(ls, "/")
+		}
+	}
+	return loc
 }
 
 // http10 sends the request as HTTP/1.0 over a plain connection (Content-Length framing, connection closed after).
